@@ -1,0 +1,31 @@
+//go:build verif && windows
+
+package fsnotify
+
+// Contracts for backend_windows.go, read by /verif's verification-condition
+// generator. Comment-only; compiled only with -tags verif.
+
+// ---- flag translation (C15): transcribed from the Watcher documentation and
+// the ReadDirectoryChangesW documentation (FILE_ACTION_*, FILE_NOTIFY_CHANGE_*)
+//@ def specOpWindows(mask uint32) := ite(mask & (sysFSCREATE | sysFSMOVEDTO) != 0, Create, 0) | ite(mask & (sysFSDELETE | sysFSDELETESELF) != 0, Remove, 0) |
+//@        ite(mask & sysFSMODIFY != 0, Write, 0) | ite(mask & (sysFSMOVEDFROM | sysFSMOVESELF) != 0, Rename, 0)
+
+//@ func (w *readDirChangesW) newEvent(name string, mask uint32) (e Event)
+//@   ensures e.Name == name && e.renamedFrom == ""
+//@   ensures e.Op == specOpWindows(mask)                                        [C15] "the internal mask maps to the documented operations; a combination yields the union"
+//@   ensures e.Op & Chmod == 0                                                  [C15] "attribute changes are never reported on Windows"
+
+//@ func (w *readDirChangesW) toFSnotifyFlags(action uint32) (m uint64)
+//@   ensures m == ite(action == windows.FILE_ACTION_ADDED, uint64(sysFSCREATE), ite(action == windows.FILE_ACTION_REMOVED, uint64(sysFSDELETE),
+//@             ite(action == windows.FILE_ACTION_MODIFIED, uint64(sysFSMODIFY), ite(action == windows.FILE_ACTION_RENAMED_OLD_NAME, uint64(sysFSMOVEDFROM),
+//@             ite(action == windows.FILE_ACTION_RENAMED_NEW_NAME, uint64(sysFSMOVEDTO), 0)))))                   [C15]
+//@   ensures specOpWindows(uint32(m)) == ite(action == windows.FILE_ACTION_ADDED, Create, ite(action == windows.FILE_ACTION_REMOVED, Remove,
+//@             ite(action == windows.FILE_ACTION_MODIFIED, Write, ite(action == windows.FILE_ACTION_RENAMED_OLD_NAME, Rename,
+//@             ite(action == windows.FILE_ACTION_RENAMED_NEW_NAME, Create, 0)))))                                  [C15] "each FILE_ACTION is reported as the documented operation: added and renamed-new as Create, removed as Remove, modified as Write, renamed-old as Rename"
+
+//@ func (w *readDirChangesW) toWindowsFlags(mask uint64) (m uint32)
+//@   ensures m == ite(mask & sysFSMODIFY != 0, uint32(windows.FILE_NOTIFY_CHANGE_LAST_WRITE), 0) |
+//@             ite(mask & (sysFSMOVE | sysFSCREATE | sysFSDELETE) != 0, uint32(windows.FILE_NOTIFY_CHANGE_FILE_NAME | windows.FILE_NOTIFY_CHANGE_DIR_NAME), 0)     [C15] "the notify filter requested is exactly what observing writes, and creations/removals/renames, needs"
+
+//@ func (w *readDirChangesW) xSupports(op Op) (r bool)
+//@   ensures r <==> (op & (xUnportableOpen | xUnportableRead | xUnportableCloseWrite | xUnportableCloseRead) == 0)     [C15]
